@@ -236,6 +236,7 @@ def main():
     undecided = []
     faults = []
     functions = {}
+    inlined_fns = {}
     samples = []
     skipped = []
     # functions added after the contracts were written have no contract: an inherited or absent contract must not
@@ -247,6 +248,8 @@ def main():
             skipped.append(r['label'])
             continue
         functions[r['qual']] = r['source_hash']
+        for q, h in (r.get('inlined') or {}).items():
+            inlined_fns[q] = h
         if r['status'] == 'undecided':
             undecided.append((r['label'], r['reason']))
             continue
@@ -389,6 +392,7 @@ def main():
             'checker_cmd': './check %s --tier %s' % (prop, a.tier),
             'trusted_base': TRUSTED_BASE,
             'functions_under_contract': functions,
+            'functions_executed_inline': {'note': 'repository helpers that a contracted function calls on self / in its module and that the generator executes by their BODY inside the caller (no contract of their own: a deviation from callee-by-contract, stated here; their source is part of every obligation of the caller)', 'functions': inlined_fns},
             'variants_run': len(results) - len(skipped),
             'variants_not_applicable': skipped,
             'by_backend': by_backend,
